@@ -766,8 +766,17 @@ def cases(tier, rng):
         yield random_case(rng)
 
 
+def _full_drain(case):
+    """a drain that lets every live consumer finish from ANY state of the case (the default of `_base`): the drain a
+    broken case came with may be too short for a variant of it — e.g. the send-only schedules (`drain=1`) and the
+    corpus cases are complete only together with their own operations — and a variant that merely stops early must
+    not be reported as `consumer-never-finishes`"""
+    return max(case.get("drain", 0), (case["len"] + 2) * (max(case["susp"] or [0]) + 3) + 2)
+
+
 def search_cases(broken, rng):
     for case in broken:
+        case = dict(case, drain=_full_drain(case))
         for kind in KINDS:
             if not case["lock"] and any(case["susp"]) and kind in ("agen", "iter"):
                 continue
